@@ -105,7 +105,11 @@ def type_snapshot(t, cn):
 
 
 ENT_SKIP = {"_uid", "_on_file", "_parent", "_children", "_property_groups", "_entity_type", "_visual_parameters",
-            "_centroids", "_extent", "_workspace"}
+            "_centroids", "_extent", "_workspace",
+            "_parts",  # cache derived from cells (Curve)
+            # concatenator bookkeeping tables (uid-keyed indices of the children; the children themselves are compared)
+            "_attributes_keys", "_concatenated_attributes", "_concatenated_object_ids", "_data", "_index", "_property_group_ids",
+            "_concat_attr_str"}
 # links between entities are reported separately (C20) — they are references, not payload
 LINKS = {"_receivers", "_transmitters", "_base_stations", "_potential_electrodes", "_current_electrodes", "_ab_cell_id",
          "_tx_id_property", "_concatenator", "_comments"}
@@ -122,6 +126,8 @@ def attr_snapshot(e, cn):
             val = getattr(e, name)
         except Exception as ex:  # noqa: BLE001
             val = {"getter-raised": type(ex).__name__}
+        if val is None:
+            continue  # an attribute that is None and one that was never set read the same
         out[name] = canon_value(val, cn)
     return out
 
